@@ -33,16 +33,29 @@ theorem bind_ok {α β : Type} {x : Except Fail α} {k : α → Except Fail β} 
 theorem Flags.join_none (a : Flags) : a.join Flags.none = a := by
   cases a; simp [Flags.join, Flags.none]
 
-theorem Flags.join_false (a : Flags) : a.join ⟨false, false, false⟩ = a := by
+theorem Flags.join_false (a : Flags) : a.join ⟨false, false, false, false⟩ = a := by
   cases a; simp [Flags.join]
 
 theorem Flags.clean_join {a b : Flags} (h : (a.join b).clean = true) : a.clean = true ∧ b.clean = true := by
   cases a; cases b
   simp only [Flags.join, Flags.clean, Bool.and_eq_true, Bool.not_eq_true', Bool.or_eq_false_iff] at h ⊢
-  exact ⟨⟨⟨h.1.1.1, h.1.2.1⟩, h.2.1⟩, ⟨⟨h.1.1.2, h.1.2.2⟩, h.2.2⟩⟩
+  exact ⟨⟨⟨⟨h.1.1.1.1, h.1.1.2.1⟩, h.1.2.1⟩, h.2.1⟩, ⟨⟨⟨h.1.1.1.2, h.1.1.2.2⟩, h.1.2.2⟩, h.2.2⟩⟩
 
-theorem Flags.clean_mk {a b c : Bool} (h : (Flags.mk a b c).clean = true) : a = false ∧ b = false ∧ c = false := by
+theorem Flags.clean_mk {a b c : Bool} (h : (Flags.mk a b c false).clean = true) : a = false ∧ b = false ∧ c = false := by
   simpa [Flags.clean, and_assoc] using h
+
+/-- the flags the list adds for one initializer: region `FlexReinit` -/
+def reinitFl (ty : Ty) (top : Bool) (obj : Init) (desg : Bool) (paths : List (List Nat)) : Flags :=
+  ⟨false, false, false, reinitAt ty top obj desg paths⟩
+
+theorem reinitFl_clean {ty : Ty} {top : Bool} {obj : Init} {desg : Bool} {paths : List (List Nat)}
+    (h : (reinitFl ty top obj desg paths).clean = true) : reinitFl ty top obj desg paths = Flags.none := by
+  simp only [reinitFl, Flags.clean, Bool.not_false, Bool.true_and, Bool.not_eq_true'] at h
+  simp [reinitFl, h, Flags.none]
+
+theorem reinitFl_none_of {ty : Ty} {top : Bool} {obj : Init} {desg : Bool} {paths : List (List Nat)}
+    (h : reinitAt ty top obj desg paths = false) : reinitFl ty top obj desg paths = Flags.none := by
+  simp [reinitFl, h, Flags.none]
 
 /-- `r` succeeded outside every region ⇒ `y` is that result -/
 def Imp (x y : Except Fail Result) : Prop := ∀ r, x = .ok r → r.fl.clean = true → y = .ok r
@@ -84,7 +97,8 @@ theorem initList_item (g : Nat) (ty : Ty) (top : Bool) (obj : Init) (cur : Optio
     (fl : Flags) (h : consumeEnd toks = none) :
     initList (g+1) ty top obj cur toks first fl =
       ((if first then pure toks else skipTok .comma "," toks) >>= fun toks =>
-        pathsOf ty top cur toks >>= fun pt => initItem g ty top obj pt.1 pt.2 fl) := by
+        pathsOf ty top cur toks >>= fun pt =>
+          initItem g ty top obj pt.1 pt.2 (fl.join (reinitFl ty top obj (isDesg toks) pt.1))) := by
   unfold consumeEnd at h
   rw [initList]
   · cases first <;> rfl
@@ -136,11 +150,39 @@ theorem initList_clean : ∀ (g : Nat) (ty : Ty) (top : Bool) (obj : Init) (cur 
       rw [initList_item _ _ _ _ _ _ _ _ he] at h
       obtain ⟨_, _, h⟩ := bind_eq_ok h
       obtain ⟨_, _, h⟩ := bind_eq_ok h
-      exact initItemWith_clean (initList g) (initList_clean g) _ _ _ _ _ _ _ h hc
+      exact (Flags.clean_join (initItemWith_clean (initList g) (initList_clean g) _ _ _ _ _ _ _ h hc)).1
 
 theorem initItem_clean {g : Nat} {ty : Ty} {top : Bool} {obj : Init} {paths : List (List Nat)} {toks : List ITok} {fl : Flags}
     {r : Result} (h : initItem g ty top obj paths toks fl = .ok r) (hc : r.fl.clean = true) : fl.clean = true :=
   initItemWith_clean (initList g) (initList_clean g) _ _ _ _ _ _ _ h hc
+
+/-- outside the regions the list adds no flag for the initializer: the unfolding in the form the simulation uses -/
+theorem initList_item_imp (g : Nat) (ty : Ty) (top : Bool) (obj : Init) (cur : Option (List Nat)) (toks : List ITok) (first : Bool)
+    (fl : Flags) (h : consumeEnd toks = none) {r : Result} (hr : initList (g+1) ty top obj cur toks first fl = .ok r)
+    (hc : r.fl.clean = true) :
+    ((if first then pure toks else skipTok .comma "," toks) >>= fun toks =>
+        pathsOf ty top cur toks >>= fun pt => initItem g ty top obj pt.1 pt.2 fl) = .ok r := by
+  rw [initList_item _ _ _ _ _ _ _ _ h] at hr
+  cases hx : (if first then pure toks else skipTok .comma "," toks : Except Fail (List ITok)) with
+  | error e => rw [hx] at hr; cases hr
+  | ok toks1 =>
+    rw [hx] at hr
+    simp only [ok_bind] at hr ⊢
+    cases hp : pathsOf ty top cur toks1 with
+    | error e => rw [hp] at hr; cases hr
+    | ok pt =>
+      rw [hp] at hr
+      simp only [ok_bind] at hr ⊢
+      have hcl := (Flags.clean_join (initItem_clean hr hc)).2
+      rw [reinitFl_clean hcl, Flags.join_none] at hr
+      exact hr
+
+theorem Imp.of_item {g : Nat} {ty : Ty} {top : Bool} {obj : Init} {cur : Option (List Nat)} {toks : List ITok} {first : Bool}
+    {fl : Flags} {y : Except Fail Result} (h : consumeEnd toks = none)
+    (hy : Imp ((if first then pure toks else skipTok .comma "," toks) >>= fun toks =>
+        pathsOf ty top cur toks >>= fun pt => initItem g ty top obj pt.1 pt.2 fl) y) :
+    Imp (initList (g+1) ty top obj cur toks first fl) y :=
+  fun r hr hc => hy r (initList_item_imp g ty top obj cur toks first fl h hr hc) hc
 
 /-- a run that starts inside a region proves nothing and is related to everything -/
 theorem Imp.of_dirty_list {g : Nat} {ty : Ty} {top : Bool} {obj : Init} {cur : Option (List Nat)} {toks : List ITok} {first : Bool}
@@ -284,7 +326,7 @@ def isStrTok : ITok → Bool
 /-- the regions an initializer without braces that lands at `q` enters -/
 def tokFlags (root : Ty) (obj : Init) (tok : ITok) (q : List Nat) : Flags :=
   ⟨(isStrTok tok && (match subTy root q with | some (.scalar ..) => false | _ => touched obj q)) || switchesUnion obj q,
-   exprAbove obj q, false⟩
+   exprAbove obj q, false, false⟩
 
 theorem initItem_tok (g : Nat) (root : Ty) (top : Bool) (obj : Init) (p : List Nat) (tok : ITok) (r : List ITok) (fl : Flags)
     (hb : tok ≠ .lbrace) :
@@ -307,7 +349,7 @@ theorem initItem_brace (g : Nat) (root : Ty) (top : Bool) (obj : Init) (p : List
       (initList g t false (braceStart t) (firstCursor t) inner true Flags.none >>= fun sub =>
         modifyAt root top (fun _ _ => pure (defaultMember t (unflex sub.obj))) root [] p obj >>= fun obj' =>
           initList g root top obj' (next root top p.reverse) sub.rest false
-            ((fl.join ⟨touched obj p, exprAbove obj p, false⟩).join sub.fl)) := by
+            ((fl.join ⟨touched obj p, exprAbove obj p, false, false⟩).join sub.fl)) := by
   unfold initItem initItemWith
   simp only [ht, hg, Bool.false_eq_true, ↓reduceIte, pure_bind']
   cases initList g t false (braceStart t) (firstCursor t) inner true Flags.none with
